@@ -110,7 +110,8 @@ def floor_case(draw):
     W = draw(st.integers(1, 3))
     return {"N": N, "W": W, "K": draw(st.integers(1, 3)), "seed": draw(st.integers(0, 2 ** 32 - 1)),
             "eps": draw(st.sampled_from([0.0, 1e-8, 1e-4, 1e-2, 0.1, 1.0])), "pick": draw(st.integers(0, 10 ** 6)),
-            "lam": draw(st.sampled_from([0.0, 0.11, 0.5])), "eps_form": draw(st.sampled_from(["float", "np.float64", "int_if_integral"]))}
+            "lam": draw(st.sampled_from([0.0, 0.11, 0.5])), "eps_form": draw(st.sampled_from(["float", "np.float64", "int_if_integral"])),
+            "data_scale": draw(st.sampled_from([1.0, 1.0, 1e3, 1e6, 1e8, 1e-3]))}
 
 
 def _fit(case, eps):
@@ -120,7 +121,7 @@ def _fit(case, eps):
     rng = np.random.default_rng(case["seed"])
     N, W, K = case["N"], case["W"], case["K"]
     n = N * W
-    data = rng.normal(size=(40, n))
+    data = rng.normal(size=(40, n)) * case.get("data_scale", 1.0)      # large variances: precision entries down to 1e-17 and below
     args = arguments.UserArguments(sparsity_weight=case["lam"], iteration_limit=1, label_switching_cost=1.0, min_cluster_size=2,
                                    min_meaningful_covariance=eps, num_clusters=K, num_processors=1, window_size=W, biased_covariance=False)
     ms = model_state.ModelState.empty_model(args, data)
